@@ -12,10 +12,11 @@ Theorem C13_at_most_once : forall n tr s, run (pool_init n) tr = Some s ->
 Proof. exact at_most_once. Qed.
 Print Assumptions C13_at_most_once.
 
-(* shutdown returns only after every submitted job has finished *)
-Theorem C13_drained : forall n tr s, run (pool_init n) tr = Some s -> p_main s = MReturned ->
+(* shutdown returns only after every submitted job has finished (a pool has at least one worker:
+   ThreadPool::new asserts size > 0; with no worker the statement is false, see drained_false_at_0) *)
+Theorem C13_drained : forall n tr s, 0 < n -> run (pool_init n) tr = Some s -> p_main s = MReturned ->
   forall j, j < p_sent s -> In j (p_done s).
-Proof. exact drained. Qed.
+Proof. exact drained_partial. Qed.
 Print Assumptions C13_drained.
 
 (* the receiver lock is held only inside recv: a worker that holds a job or runs one never holds it *)
